@@ -33,3 +33,150 @@ Print Assumptions C18_int_bits_roundtrip.
 (* non-vacuity: a concrete mixed-radix instance meets the hypotheses *)
 Example C18_digits_example : digits_to_int [1; 2; 3] [2; 3; 4] = Some 23 /\ all_pos [2; 3; 4].
 Proof. split; [reflexivity|repeat constructor]. Qed.
+
+(* ================= result views (model: Codec/ResultViews.v) ================= *)
+From VF Require Import Codec.ResultViews Codec.ResultViewsProofs.
+
+(* a Counter built from a sequence holds, for every value, the number of its occurrences *)
+Theorem C18_counter_of_count : forall (A : Type) (eqb : A -> A -> bool),
+  (forall a b, eqb a b = true <-> a = b) ->
+  forall v l, count eqb v (counter_of eqb l) = occurrences eqb v l.
+Proof. exact @counter_of_count. Qed.
+Print Assumptions C18_counter_of_count.
+
+(* the flattened views exist exactly when every key is measured once per repetition *)
+Theorem C18_measurements_defined : forall res, measurements res <> None <-> all_single res = true.
+Proof. exact measurements_defined. Qed.
+Print Assumptions C18_measurements_defined.
+
+Theorem C18_meas_of_rec_of_meas : forall nq m, meas_of (rec_of_meas nq m) = Some m.
+Proof. exact meas_of_rec_of_meas. Qed.
+Print Assumptions C18_meas_of_rec_of_meas.
+
+(* measurements, data frame, default histogram and histogram with any fold function are the stated
+   functions of the same rows (the single instance of every repetition), and the data frame entry is the
+   big-endian integer of the row *)
+Theorem C18_result_views_agree : forall res k r,
+  all_single res = true -> lookup k res = Some r -> rec_wf r = true ->
+  let rows := rows_of r in
+  rows = map (fun rep => hd [] rep) (r_data r) /\
+  (exists ms, measurements res = Some ms /\ lookup k ms = Some (r_nq r, rows)) /\
+  (exists df, dataframe res = Some df /\ lookup k df = Some (map df_value rows)) /\
+  (forall row, In row rows -> binary_row row ->
+     df_value row = bits_to_int (map truthy row) /\ digits_to_int row (repeat 2 (length row)) = Some (df_value row)) /\
+  (Forall binary_row rows -> exists h, histogram res k BaseNone = Some h /\
+     forall v, count Z.eqb v h = occurrences Z.eqb v (map df_value rows)) /\
+  (forall A (eqb : A -> A -> bool), (forall a b, eqb a b = true <-> a = b) ->
+     forall (f : list Z -> option A) vals, mapM f rows = Some vals ->
+     exists h, histogram_fold eqb res k f = Some h /\ forall v, count eqb v h = occurrences eqb v vals).
+Proof. exact result_views_agree. Qed.
+Print Assumptions C18_result_views_agree.
+
+(* histogram(key, fold_base): both the vectorised and the generic path count the positional value of each row *)
+Theorem C18_histogram_base_list_counts : forall res k r bs vals,
+  all_single res = true -> lookup k res = Some r -> rec_wf r = true -> length bs = r_nq r ->
+  mapM (fun row => digits_to_int row bs) (rows_of r) = Some vals ->
+  exists h, histogram res k (BaseList bs) = Some h /\ forall v, count Z.eqb v h = occurrences Z.eqb v vals.
+Proof. exact histogram_base_list_counts. Qed.
+Print Assumptions C18_histogram_base_list_counts.
+
+Theorem C18_histogram_base_int_counts : forall res k r b vals,
+  all_single res = true -> lookup k res = Some r -> rec_wf r = true ->
+  mapM (fun row => digits_to_int row (repeat b (r_nq r))) (rows_of r) = Some vals ->
+  exists h, histogram res k (BaseInt b) = Some h /\ forall v, count Z.eqb v h = occurrences Z.eqb v vals.
+Proof. exact histogram_base_int_counts. Qed.
+Print Assumptions C18_histogram_base_int_counts.
+
+(* multi_measurement_histogram: sample i is the tuple of the i-th rows of the keys, in argument order *)
+Theorem C18_multi_samples_spec : forall res ks (rowsf : Z -> list (list Z)) n,
+  all_single res = true -> ks <> [] ->
+  (forall k, In k ks -> exists r, lookup k res = Some r /\ rows_of r = rowsf k /\ length (rowsf k) = n) ->
+  exists samples, multi_samples res ks = Some samples /\ length samples = n /\
+    forall i, (i < n)%nat -> nth i samples [] = map (fun k => nth i (rowsf k) []) ks.
+Proof. exact multi_samples_spec. Qed.
+Print Assumptions C18_multi_samples_spec.
+
+Theorem C18_multi_hist_counts : forall (A : Type) (eqb : A -> A -> bool),
+  (forall a b, eqb a b = true <-> a = b) ->
+  forall res ks (fold : list (list Z) -> option A) samples vals,
+  multi_samples res ks = Some samples -> mapM fold samples = Some vals ->
+  exists h, multi_hist eqb res ks fold = Some h /\ forall v, count eqb v h = occurrences eqb v vals.
+Proof. exact @multi_hist_counts. Qed.
+Print Assumptions C18_multi_hist_counts.
+
+(* r1 + r2: every view of the sum is the concatenation / sum of counts of the views *)
+Theorem C18_result_add_views : forall a b c k ra rb,
+  result_add a b = Some c -> lookup k a = Some ra -> lookup k b = Some rb ->
+  exists rc, lookup k c = Some rc /\
+    r_data rc = r_data ra ++ r_data rb /\ r_inst rc = r_inst ra /\ r_inst rc = r_inst rb /\
+    r_nq rc = r_nq ra /\ r_nq rc = r_nq rb /\
+    rows_of rc = rows_of ra ++ rows_of rb /\
+    map df_value (rows_of rc) = map df_value (rows_of ra) ++ map df_value (rows_of rb) /\
+    (forall ma mb, meas_of ra = Some ma -> meas_of rb = Some mb -> meas_of rc = Some (ma ++ mb)) /\
+    (forall A (eqb : A -> A -> bool), (forall x y, eqb x y = true <-> x = y) ->
+       forall (f : list Z -> A) v,
+       count eqb v (counter_of eqb (map f (rows_of rc))) =
+       (count eqb v (counter_of eqb (map f (rows_of ra))) + count eqb v (counter_of eqb (map f (rows_of rb))))%nat).
+Proof. exact result_add_views. Qed.
+Print Assumptions C18_result_add_views.
+
+Theorem C18_result_add_repetitions : forall a b c k0 r0 rest,
+  result_add a b = Some c -> b = (k0, r0) :: rest ->
+  exists ra, lookup k0 a = Some ra /\ repetitions c = (length (r_data ra) + length (r_data r0))%nat.
+Proof. exact result_add_repetitions. Qed.
+Print Assumptions C18_result_add_repetitions.
+
+(* JSON storage: bit-packed and general digit packing round-trip; whole records keep shape and order *)
+Theorem C18_pack_digits_roundtrip : forall itemsize flat, (0 < itemsize)%nat ->
+  Forall (fun d => 0 <= d < 256 ^ Z.of_nat itemsize) flat ->
+  unpack_digits itemsize (length flat) (pack_digits itemsize flat) = flat.
+Proof. exact pack_digits_roundtrip. Qed.
+Print Assumptions C18_pack_digits_roundtrip.
+
+Theorem C18_rec_json_roundtrip : forall itemsize r, (0 < itemsize)%nat -> rec_wf r = true ->
+  Forall (fun d => 0 <= d < 256 ^ Z.of_nat itemsize) (flatten (r_data r)) ->
+  rec_of_json itemsize (rec_to_json itemsize r) = r.
+Proof. exact rec_json_roundtrip. Qed.
+Print Assumptions C18_rec_json_roundtrip.
+
+(* sampler defaults as list functions over an abstract run_sweep *)
+Theorem C18_normalize_batch_args_spec : forall (Sweep : Type) n (none : Sweep) params reps ps rs,
+  normalize_batch_args n none params reps = Some (ps, rs) <->
+  ps = match params with None => repeat none n | Some l => l end /\
+  rs = match reps with inl r => repeat r n | inr l => l end /\
+  length ps = n /\ length rs = n.
+Proof. exact @normalize_batch_args_spec. Qed.
+Print Assumptions C18_normalize_batch_args_spec.
+
+Theorem C18_run_batch_spec : forall (Prog Sweep Res : Type) (run_sweep : Prog -> Sweep -> nat -> list Res)
+  none programs params reps out dp ds,
+  run_batch run_sweep none programs params reps = Some out ->
+  length out = length programs /\
+  exists ps rs, normalize_batch_args (length programs) none params reps = Some (ps, rs) /\
+    forall i, (i < length programs)%nat ->
+      nth i out [] = run_sweep (nth i programs dp) (nth i ps ds) (nth i rs 0%nat).
+Proof. exact @run_batch_spec. Qed.
+Print Assumptions C18_run_batch_spec.
+
+Theorem C18_sample_rows_app : forall (Prog Sweep Res : Type) (run_sweep : Prog -> Sweep -> nat -> list Res)
+  (Row PV : Type) (resolvers : Sweep -> list PV) (rows_of : Res -> list Row) program s1 s2 reps,
+  sample_rows run_sweep resolvers rows_of program (s1 ++ s2) reps =
+  sample_rows run_sweep resolvers rows_of program s1 reps ++ sample_rows run_sweep resolvers rows_of program s2 reps.
+Proof. exact @sample_rows_app. Qed.
+Print Assumptions C18_sample_rows_app.
+
+(* non-vacuity: an asymmetric result (two keys, mixed radix, 3 repetitions) meets the hypotheses *)
+Definition C18_ex_res : result :=
+  [(0, mkRec 1 3 [[[1; 0; 1]]; [[0; 1; 1]]; [[1; 0; 1]]]); (1, mkRec 1 2 [[[2; 1]]; [[0; 4]]; [[2; 1]]])].
+Example C18_views_example :
+  all_single C18_ex_res = true /\ res_wf C18_ex_res = true /\
+  dataframe C18_ex_res = Some [(0, [5; 3; 5]); (1, [5; 4; 5])] /\
+  histogram C18_ex_res 0 BaseNone = Some [(5, 2%nat); (3, 1%nat)] /\
+  histogram C18_ex_res 1 (BaseList [3; 5]) = Some [(11, 2%nat); (4, 1%nat)] /\
+  multi_samples C18_ex_res [1; 0] = Some [[[2; 1]; [1; 0; 1]]; [[0; 4]; [0; 1; 1]]; [[2; 1]; [1; 0; 1]]] /\
+  (exists c, result_add C18_ex_res C18_ex_res = Some c /\ repetitions c = 6%nat) /\
+  pack_digits 1 [1; 0; 1; 1; 0; 0; 0; 0; 1] = ([11; 0; 8; 0], true) /\
+  pack_digits 1 [2; 1] = ([0; 2; 0; 1], false) /\
+  run_batch (fun (c p r : nat) => [(c, p, r)]) 7%nat [10; 20]%nat None (inl 3%nat)
+    = Some [[(10, 7, 3)]; [(20, 7, 3)]]%nat.
+Proof. repeat split; try reflexivity. eexists. split; reflexivity. Qed.
